@@ -2117,7 +2117,7 @@ theorem v1_render_read_patch_noDash (L : FloatLaws) {N : Nat} (I : IdxLaws N) (h
 /-- `ReadPatchString` on a patch document whose operations are `ops` runs the element loop with
     fuel `ops.length + 1` -/
 theorem readPatchDoc_of_loop {doc : Json} {ops : List PatchOp} {d' : V1.PDiff}
-    (h1 : patchOpsOfJson doc = .ok ops)
+    (h1 : V1.patchOpsOfJson doc = .ok ops)
     (h2 : V1.readPatchLoop (ops.length + 1) ops [] = .ok d') : V1.readPatchDoc doc = .ok d' := by
   unfold V1.readPatchDoc
   rw [h1]; exact h2
